@@ -22,7 +22,17 @@ func runC04(r *Run) {
 	r.rule("C04.R5", "the recorded execution amounts are the same values that are subtracted", 2)
 	r.rule("C04.R6", "Slash: cache-context discipline (the duplicate-ID / record check happens before the commit; nothing fails after it)", 4)
 	r.rule("C04.R7", "CheckSlashParameter (non-negative proportion, event height <= current height) dominates SlashAssets", 3)
-	r.rule("C04.R8", "frame condition in the callees: slashed records/pools are written back through the iterator helpers; the share-zeroing after a pool-emptying slash changes only UndelegatableShare", 3)
+	r.rule("C04.R8", "frame condition in the callees: slashed records/pools are written back through the iterator helpers; the share-zeroing after a pool-emptying slash changes only UndelegatableShare", 4)
+	// every pool of the operator is slashed: the pool iteration of SlashAssets gets no asset filter
+	if sv := w.View("x/operator/keeper", "Keeper.SlashAssets"); sv != nil {
+		okNil := false
+		for _, c := range sv.CallsNamed("IterateAssetsForOperator") {
+			if len(c.Args) == 5 && isNilIdent(sv.Info, c.Args[3]) && exprString(c.Args[1]) == "true" {
+				okNil = true
+			}
+		}
+		r.check(okNil, "C04.R8", "SlashAssets|all-pools", sv.pos(sv.Decl), "the same fraction is removed from each of the operator's pools (no asset filter)", "SlashAssets iterates the operator's pools with an asset filter: pools outside it keep their full amount although they count in the proportion's denominator")
+	}
 	iteratorWriteBackRule(r, "C04.R8", map[string]bool{"IterateUndelegationsByOperator": true, "IterateAssetsForOperator": true})
 	shareZeroingRule(r, "C04.R8")
 
